@@ -94,10 +94,11 @@ let parse_act toks =
   | _ -> failwith ("act " ^ String.concat " " toks)
 
 let () =
-  let file = Sys.argv.(1) in
-  let fuel = nat_of_int (if Array.length Sys.argv > 2 then int_of_string Sys.argv.(2) else 3000) in
-  let ic = open_in file in
-  let nodes = Hashtbl.create 100 and named = Hashtbl.create 100 and custom = Hashtbl.create 100 and runs = ref [] in
+  let dumpfile = Sys.argv.(1) and casefile = Sys.argv.(2) in
+  let fuel = nat_of_int (if Array.length Sys.argv > 3 then int_of_string Sys.argv.(3) else 3000) in
+  let nodes = Hashtbl.create 100 and named = Hashtbl.create 100 and custom = Hashtbl.create 100
+  and roots = Hashtbl.create 100 and runs = ref [] in
+  let ic = open_in dumpfile in
   (try while true do
     let l = input_line ic in
     if String.length l > 5 && String.sub l 0 5 = "NODE " then begin
@@ -117,13 +118,24 @@ let () =
       match split_ws (String.sub l 4 (String.length l - 4)) with
       | fam :: r :: toks -> Hashtbl.replace custom (int_of_string fam, int_of_string r) (parse_act toks)
       | _ -> failwith "bad act"
-    end else if String.length l > 4 && String.sub l 0 4 = "RUN " then begin
-      let bar = String.index l '|' in
-      (match split_ws (String.sub l 4 (bar - 4)) with
-       | [gid; root; cfg; inp] -> runs := (gid, int_of_string root, cfg, inp) :: !runs
-       | _ -> failwith "bad run")
+    end else if String.length l > 4 && String.sub l 0 4 = "REG " then begin
+      match split_ws (String.sub l 4 (String.length l - 4)) with
+      | [gid; root; cfg] -> Hashtbl.replace roots (gid, cfg) (int_of_string root)
+      | _ -> failwith "bad reg"
     end
   done with End_of_file -> ());
+  close_in ic;
+  let ic = open_in casefile in
+  (try while true do
+    let l = input_line ic in
+    match split_ws l with
+    | [gid; cfg; inp] ->
+      (match Hashtbl.find_opt roots (gid, cfg) with
+       | Some root -> runs := (gid, root, cfg, inp) :: !runs
+       | None -> ())
+    | _ -> ()
+  done with End_of_file -> ());
+  close_in ic;
   let n = Hashtbl.length nodes in
   let g = List.init n (fun i -> try Hashtbl.find nodes i with Not_found -> failwith ("missing node " ^ string_of_int i)) in
   let beh fam r =
@@ -157,7 +169,7 @@ let () =
                   | 12 -> ARet false
                   | 13 -> AThrow N0
                   | _ -> ARet true);
-              has_unwind = (fun ctl -> int_of_nat ctl = 0);
+              has_unwind = (fun ctl -> int_of_nat ctl mod 2 = 0);
               raise_on_failure = (fun _ _ -> false) } in
     let d = { dA = a; dM = m; dAct = nat_of_int fam0; dCtl = nat_of_int ctl0; dDepth = O } in
     let s = unhex inp in
@@ -182,6 +194,10 @@ let () =
       | EStSuccess (_, p) -> (match !stack with
           | i :: tl -> Buffer.add_string buf (Printf.sprintf "Y%d,%d%s;" i (match tl with [] -> 0 | x :: _ -> x) (ps p))
           | [] -> Buffer.add_string buf "Y?;")
+      | EEnter (ctl, r, a, m, p) -> if int_of_nat ctl >= 2 then
+          Buffer.add_string buf (Printf.sprintf "B%d,%d,%d,%d%s;" (int_of_nat ctl) (int_of_nat r) (if a then 1 else 0) (if m then 1 else 0) (ps p))
+      | EExit (ctl, r, o, p) -> if int_of_nat ctl >= 2 then
+          Buffer.add_string buf (Printf.sprintf "E%d,%d,%d%s;" (int_of_nat ctl) (int_of_nat r) (match o with Some true -> 1 | Some false -> 0 | None -> 2) (ps p))
       | EStDrop _ -> (match !stack with
           | i :: tl -> stack := tl; Buffer.add_string buf (Printf.sprintf "D%d;" i)
           | [] -> Buffer.add_string buf "D?;") in
